@@ -41,6 +41,16 @@ def stepPath (_ : Unit) (ts : List String) : Unit × String :=
   | ["path", h] => match hexToStr h with
     | some n => ((), pathAnswer n)
     | none => ((), "unmodelled invalid-utf8")
+  | ["clean"] => ((), "= " ++ strToHex (pathClean []))
+  | ["clean", h] => match hexToStr h with
+    | some n => ((), "= " ++ strToHex (pathClean n))
+    | none => ((), "unmodelled invalid-utf8")
+  | ["join", o] => match hexToStr o with
+    | some out => ((), "= " ++ strToHex (joinOut out []))
+    | none => ((), "unmodelled invalid-utf8")
+  | ["join", o, h] => match hexToStr o, hexToStr h with
+    | some out, some n => ((), "= " ++ strToHex (joinOut out n))
+    | _, _ => ((), "unmodelled invalid-utf8")
   | _ => ((), "bad-op")
 
 /-! ### frames: archives A (key 1, header hash 1, chunks A0 A1 A2) and B (key 2, header hash 2, chunks B0 B1),
